@@ -291,7 +291,7 @@ def gen_import(rng, mod, members, semi, style):
     return s + (";" if semi else "")
 
 
-def gen_doc(rng, world, need, want_nosemi=False, nonascii_tail=False, exclude=(), tight=None):
+def gen_doc(rng, world, need, want_nosemi=False, nonascii_tail=False, exclude=(), tight=None, stale_from=None):
     """A document that uses class `need` without importing it (and never mentions the classes in
     `exclude`). Returns (text, meta).  `tight` layouts put something other than whitespace or a `//`
     comment behind the last import on the same line: a class that starts there and continues below
@@ -348,6 +348,16 @@ def gen_doc(rng, world, need, want_nosemi=False, nonascii_tail=False, exclude=()
             pieces.append(" ")
         else:
             pieces.append(rng.pick(["\n", " // t\n", "\n\n"]))
+    if stale_from:
+        # the document imports `need` from a module that does not (any longer) export it
+        others = [c for c in EXPORTERS.get(stale_from, []) if c != need and c not in exclude]
+        members = [need] + (rng.shuffle(others)[:1] if others and rng.chance(1, 3) else [])
+        txt = gen_import(rng, stale_from, rng.shuffle(members), not rng.chance(1, 4), rng.below(6))
+        if rng.chance(1, 2):
+            pieces.insert(1, txt + rng.pick(["\n", "\n\n", " // was moved\n"]))
+        else:
+            pieces.append(txt + rng.pick(["\n", "\n\n", " "]))
+        imports.append((stale_from, members, True))
     use = rng.weighted([("call", 40), ("param", 20), ("field", 15), ("two", 15), ("local", 10)])
     cname = rng.pick(["Main", "Main2", "App"])
     pre = rng.pick(["", "", rng.pick(COMMENTS) + "\n", "\n"])
@@ -403,9 +413,16 @@ def gen_case(rng, want_nosemi=False, nonascii_tail=False, force_hist=None, tight
     need = cn(role)
     final_mods = {m: list(cs) for m, cs in world["mods"].items()}
     private_in = rng.pick(list(final_mods))
-    doc, meta = gen_doc(rng, world, need, want_nosemi, nonascii_tail, tight=tight)
-    hist = force_hist or rng.weighted([("none", 25), ("pre_mention", 25), ("doc_edit", 15), ("late_export", 12),
+    hist = force_hist or rng.weighted([("stale_import", 12), ("none", 25), ("pre_mention", 25), ("doc_edit", 15), ("late_export", 12),
                                        ("rename_exporter", 9), ("remove_exporter", 7), ("doc_late", 7)])
+    stale_from, stale_kind = None, None
+    if hist == "stale_import":
+        if role not in ("Foo", "Bar"):
+            role = rng.pick(["Foo", "Bar"]); need = cn(role)
+        holders = [m for m, cs in final_mods.items() if need in cs]
+        stale_kind = rng.pick(["never", "removed", "renamed"])
+        stale_from = rng.pick([m for m in final_mods if m not in holders]) if stale_kind == "never" else rng.pick(holders)
+    doc, meta = gen_doc(rng, world, need, want_nosemi, nonascii_tail, tight=tight, stale_from=stale_from)
     lines = ["new"]
     srcs = {m: exporter_text(rng, cs, cn("Hidden") if m == private_in else None) for m, cs in final_mods.items()}
     others = [cn(r) for r in ("Foo", "Bar", "Zed", "Qux", "Nope") if cn(r) != need]
@@ -415,6 +432,19 @@ def gen_case(rng, want_nosemi=False, nonascii_tail=False, force_hist=None, tight
     if hist == "none":
         for m, s in srcs.items(): lines.append(f"src {m} {hexs(s)}")
         lines.append(f"src Doc {hexs(doc)}"); lines.append("init")
+    elif hist == "stale_import":
+        for m, s in srcs.items(): lines.append(f"src {m} {hexs(s)}")
+        lines.append(f"src Doc {hexs(doc)}"); lines.append("init")
+        if stale_kind == "removed":       # the class was moved away: the module is updated without it
+            final_mods[stale_from] = [c for c in final_mods[stale_from] if c != need]
+            lines.append(f"upd {stale_from} {hexs(exporter_text(rng, final_mods[stale_from], cn('Hidden') if stale_from == private_in else None))}")
+        elif stale_kind == "renamed":     # the module itself was moved; the document still names the old one
+            newname = "moved." + stale_from.replace(".", "")
+            lines.append(f"mv {stale_from} {newname}")
+            final_mods[newname] = final_mods.pop(stale_from)
+            if private_in == stale_from: private_in = newname
+        if rng.chance(1, 3):
+            lines.append(f"upd Doc {hexs(doc)}")
     elif hist == "pre_mention":
         # the whole edit history happens BEFORE the document first mentions the class: every GC round
         # of the history runs while nothing outside the exporter refers to the class name
@@ -474,7 +504,9 @@ def gen_case(rng, want_nosemi=False, nonascii_tail=False, force_hist=None, tight
         ifaces["Scratch"] = ["ScratchPad"]
     meta["history"] = hist
     meta["names"] = ("long" if world["long_classes"] else "short") + "-class/" + ("long" if world["long_mods"] else "short") + "-module"
-    return {"lines": lines, "doc": doc, "need": need, "exporters": exporters, "meta": meta, "ifaces": ifaces, "role": role}
+    meta["stale"] = stale_kind or ""
+    return {"lines": lines, "doc": doc, "need": need, "exporters": exporters, "meta": meta, "ifaces": ifaces, "role": role,
+            "offer_optional": hist == "stale_import"}
 
 
 # --- independent splice ---------------------------------------------------------------------
@@ -579,7 +611,8 @@ def judge(doc, base, after, name, module, edits_reason):
     if sorted(after["imports"]) != want:
         bad.append(f"imports after the edit are {after['imports']}, expected {base['imports']} + {module}:{name}")
     ukey = "U:" + hexs(name)
-    if any(k == ukey for k, _, _ in after["errs"]):
+    is_u = lambda k: k == ukey or k.startswith(ukey + ":")
+    if any(is_u(k) for k, _, _ in after["errs"]):
         bad.append(f"class {name} is still reported as unresolved after the import was added")
     if after["tops"] != base["tops"]:
         bad.append("top-level declarations changed")
@@ -587,7 +620,7 @@ def judge(doc, base, after, name, module, edits_reason):
     # itself, which is now resolved and therefore checked for the first time)
     old_msgs = [m for k, _, m in base["errs"] if k != "S"]
     for k, _, m in after["errs"]:
-        if k == "S" or k == ukey:
+        if k == "S" or is_u(k):
             continue
         if m in old_msgs:
             old_msgs.remove(m)
@@ -686,7 +719,9 @@ class DocRunner:
                         continue
                     m = re.match(r"(\d+):(\d+)-(\d+):(\d+)", loc)
                     sl, sc, el, ec = map(int, m.groups())
-                    nm = unhex(kind[2:]).decode()
+                    nm = unhex(kind.split(":")[1]).decode()
+                    lookup = unhex(kind.split(":")[2]).decode() if kind.count(":") >= 2 else "Doc"
+                    c.setdefault("lookup_of", {})
                     rng = self.rng
                     k = rng.below(3)
                     if k == 0 or sl != el:
@@ -696,6 +731,7 @@ class DocRunner:
                         qs.append(("qa", nm, f"qa Doc {sl} {cc} {sl} {cc}"))
                     else:
                         qs.append(("qa", nm, f"qa Doc {sl} {sc} {sl} {sc}"))
+                    c["lookup_of"][qs[-1][2]] = lookup
                     qs.append(("qc", nm, f"qc Doc {sl} {rng.range(sc + 1, max(sc + 1, ec))}"))
             c["queries"] = qs
             start = len(q_lines)
@@ -758,6 +794,27 @@ class DocRunner:
                 n = len(base)
                 dl.append(f"aimp {locs} {fmt_list(list(range(1, n + 1)))} {n + 1} {n + 1}={after[-1][1]}")
                 keep.append((c, a))
+        # quick-fix decision: model `codeActionOffered` vs which modules the real server offered, per error
+        al, akeep = [], []
+        for c in cases:
+            for lookup, declares, offered, ql in c.get("cadec", []):
+                al.append(f"cadec 1 {lookup} Doc {''.join(map(str, declares)) or '-'}")
+                akeep.append((c, offered, ql))
+        if al:
+            rc, mo, err = common.run_exec(common.driver_bin(PROP), [], al)
+            for (c, offered, ql), line, m in zip(akeep, al, mo + ["<missing>"] * len(al)):
+                self.stats["tie_cadec"] = self.stats.get("tie_cadec", 0) + 1
+                real = "".join(map(str, offered))
+                if m == real:
+                    self.stats["tie_cadec_ok"] = self.stats.get("tie_cadec_ok", 0) + 1
+                else:
+                    payload = {"protocol": "cadec", "label": label, "doc": c["doc"], "ops": c["lines"] + [ql], "model_op": line,
+                               "modules": sorted(c["ifaces"]), "impl": real, "model": m,
+                               "broken": "correspondence `cadec` (codeActionOffered vs lib.rs:505-530)"}
+                    if self.defer:
+                        self.deferred.append(("tie", payload))
+                    elif len(self.ctx.violations) < 3:
+                        self.ctx.violation("model/implementation disagreement on protocol cadec (which errors yield a quick fix)", payload, no_input=True)
         # completion decision: model `completionAdditionalEdits` vs which real items carry an edit
         cl, ckeep = [], []
         for c in cases:
@@ -813,7 +870,19 @@ class DocRunner:
                     titles.append(mod)
                     acts.append(self.mk_action(c, "qa", ql, nm2, mod, eh, title))
             exp = c["exporters"]
-            if sorted(t for t in titles if t) != sorted(exp) and nm == c["need"]:
+            lookup = c.get("lookup_of", {}).get(ql, "Doc")
+            if c.get("ifaces") is not None:
+                mods = sorted(c["ifaces"])
+                c.setdefault("cadec", []).append((lookup, [1 if nm in c["ifaces"][M] else 0 for M in mods],
+                                                  [1 if M in titles else 0 for M in mods], ql))
+            if c.get("offer_optional"):
+                # class imported from a module that does not export it: the unchanged server offers nothing
+                # (lib.rs:509-511 guard); whatever is offered must name a real exporter and is judged like
+                # every other action (it has to resolve the class)
+                if not set(t for t in titles if t) <= set(exp) and nm == c["need"]:
+                    acts.append({"kind": "qa", "query": ql, "name": nm, "module": None, "edits": [], "spliced": None,
+                                 "reason": f"quick fixes offered for `{nm}`: from {sorted(t for t in titles if t)}; modules exporting it: {exp}"})
+            elif sorted(t for t in titles if t) != sorted(exp) and nm == c["need"]:
                 acts.append({"kind": "qa", "query": ql, "name": nm, "module": None, "edits": [], "spliced": None,
                              "reason": f"quick fixes offered for `{nm}`: from {sorted(t for t in titles if t)}; modules exporting it: {exp}"})
         else:
@@ -1254,7 +1323,7 @@ def report_deferred(ctx, runner, deferred, rng, stats):
         for _, c, a, bad, label in pick(found):
             runner.fail(c, a, bad, label)
         if not found:
-            ctx.violation("model/implementation disagreement on protocol aimp (generate_auto_import_edits); no failing "
+            ctx.violation("model/implementation disagreement on protocol " + str(ties[0][1].get("protocol")) + "; no failing "
                           "document found among the generated and the searched layouts", ties[0][1], no_input=True)
     stats["tie_disagreements"] = stats.get("tie_disagreements", 0) + len(ties)
 
@@ -1357,7 +1426,8 @@ def run(ctx):
                  "on the last import's line, random line breaks or none between toplevels, "
                  "6 layouts, comments/blank lines/CRLF between, optional ';' also on the last import) x use site of an "
                  "unimported class x class/module names short (inline PStr) or >= 16 bytes (heap PStr, subject to the "
-                 "server GC) x edit history (none, pre_mention = 1-3 unrelated updates before the document first mentions "
+                 "server GC) x edit history (none, stale_import = the class is imported from a module that never exported it / no longer does after an update / "
+                 "was renamed away while another module exports it, pre_mention = 1-3 unrelated updates before the document first mentions "
                  "the class, doc edits incl. a broken version, late export, exporter rename/removal, doc created by "
                  "update); every quick fix and completion additional edit returned is spliced and re-analysed; counted "
                  "distinct by (document, api, class, module); (c) module pairs: old/new module texts sharing a slot "
@@ -1371,6 +1441,7 @@ def run(ctx):
         "text_model_module_pairs": stats.get("tie_module_pairs", 0), "text_model_module_pairs_equal": stats.get("tie_module_ok", 0),
         "text_model_import_pairs": stats["tie_import_pairs"], "text_model_import_pairs_equal": stats["tie_import_ok"],
         "completion_edit_sets_checked": stats.get("completion_sets", 0), "completion_edit_sets_as_expected": stats.get("completion_sets_ok", 0),
+        "quick_fix_decision_model_ties": stats.get("tie_cadec", 0), "quick_fix_decision_model_ties_equal": stats.get("tie_cadec_ok", 0),
         "completion_decision_model_ties": stats.get("tie_cdec", 0), "completion_decision_model_ties_equal": stats.get("tie_cdec_ok", 0),
         "actions_whose_module_was_already_imported_with_other_members": stats.get("target_module_already_imported", 0),
         "text_model_auto_import_actions": stats["tie_aimp"], "text_model_auto_import_actions_equal": stats["tie_aimp_ok"],
